@@ -108,13 +108,14 @@ namespace
   }
 
   // ---------------- plume ----------------
-  const std::vector<uint64_t> PLUME_RADIX = {3, 3, 4, 6, 3, 5, 3, 2};
+  const std::vector<uint64_t> PLUME_RADIX = {3, 3, 4, 6, 3, 5, 3, 2, 4};
   struct Plume
   {
     bool sph;
     std::vector<double> depths, a, e, rot;
     std::vector<P2> c;
     double min_depth, max_depth; bool has_max;
+    double lon_off = 0;   // spherical: added to every centre longitude of the file (200: written beyond +180; 179.5: the plume straddles the date line; -190: written below -180)
   };
   Plume make_plume(const std::vector<unsigned> &d)
   {
@@ -138,6 +139,7 @@ namespace
       }
     // 1.5e5 and 2.2e5: the plume starts below its first cross section (truncated at the top, no head)
     p.min_depth = d[5] == 0 ? 0 : d[5] == 1 ? 5e4 : d[5] == 2 ? 1e5 : d[5] == 3 ? 1.5e5 : 2.2e5;
+    p.lon_off = d[8] == 0 ? 0 : d[8] == 1 ? 200 : d[8] == 2 ? 179.5 : -190;
     p.has_max = d[6] != 0;
     p.max_depth = d[6] == 1 ? 4e5 : 2.5e5;
     return p;
@@ -146,7 +148,7 @@ namespace
   {
     const double s = p.sph ? 1.0 : 1e5;
     std::vector<P2> c; std::vector<double> a;
-    for (auto &q : p.c) c.push_back({{q[0]*s, q[1]*s}});
+    for (auto &q : p.c) c.push_back({{q[0]*s + (p.sph ? p.lon_off : 0.0), q[1]*s}});
     for (double v : p.a) a.push_back(v*s);
     std::string f = "{\"model\":\"plume\",\"name\":\"P\",\"coordinates\":" + pts(c) + ",\"cross section depths\":" + nums(p.depths) + ",\"semi-major axis\":" + nums(a) +
                     ",\"eccentricity\":" + nums(p.e) + ",\"rotation angles\":" + nums(p.rot) + ",\"min depth\":" + num(p.min_depth);
@@ -196,6 +198,7 @@ namespace
   {
     static const int c_in = Ctx::counter_id("points_inside"), c_out = Ctx::counter_id("points_outside"), c_skip = Ctx::counter_id("skipped_near_boundary");
     const Plume p = make_plume((*devs)[idx]);
+    if (!p.sph && p.lon_off != 0) return;     // longitude offsets only exist in spherical worlds
     const std::string text = world(coord(p.sph), {plume_feature(p)});
     auto w = make_world(text);
     const double s = p.sph ? 1.0 : 1e5;
@@ -208,7 +211,10 @@ namespace
             const bool in_depth = depth >= p.min_depth && (!p.has_max || depth <= p.max_depth);
             if (in_depth && fabsl(v - 1) < 1e-9L) { ctx.count(c_skip); continue; }
             const bool expect = in_depth && v <= 1;
-            const P3 q = query_point(p.sph, x*s, y*s, depth);
+            // the query longitude is brought back into (-180,180], as an application would pass it
+            double qlon = x*s + (p.sph ? p.lon_off : 0.0);
+            if (p.sph) { while (qlon > 180) qlon -= 360; while (qlon <= -180) qlon += 360; }
+            const P3 q = query_point(p.sph, qlon, y*s, depth);
             const std::vector<double> out = w->properties(q, depth, REQ);
             ctx.eval();
             if (expect) { any_in = true; ctx.count(c_in); } else { any_out = true; ctx.count(c_out); }
@@ -264,7 +270,7 @@ int main(int argc, char **argv)
       auto devs = std::make_shared<std::vector<std::vector<unsigned>>>(deviations(PLUME_RADIX, k));
       Suite a; a.name = "plume"; a.n = devs->size();
       a.run = [devs](uint64_t i, Ctx &c) { run_plume(devs, i, c); };
-      a.bound = "plume tables within " + std::to_string(k) + " deviations of the default over radices (centres 3, semi-major 3, eccentricity 4, rotation 6, sections 3, min depth 5 (two of them below the first cross section), max depth 3, coordinate system 2); 25x25x15 point lattice (quarter steps)";
+      a.bound = "plume tables within " + std::to_string(k) + " deviations of the default over radices (centres 3, semi-major 3, eccentricity 4, rotation 6, sections 3, min depth 5 (two of them below the first cross section), max depth 3, coordinate system 2, longitude offset of the centres 4 {0, 200, 179.5, -190}); 25x25x15 point lattice (quarter steps)";
       s.push_back(a);
     }
     return s;
